@@ -217,10 +217,18 @@ impl FailSafe {
 
         kv.access(|mut kv, buf| {
             if let Some(fab_idx) = NonZeroU8::new(fab_idx_raw) {
-                fabrics.remove(fab_idx)?;
+                // The fabric might be gone already - i.e. removed with `RemoveFabric`
+                // while holding the fail-safe. That must not fail the expiry (over and
+                // over again, with the fail-safe staying armed forever); there is just
+                // nothing to drop before restoring whatever is persisted for that index.
+                let existed = fabrics.get(fab_idx).is_some();
+                if existed {
+                    fabrics.remove(fab_idx)?;
+                }
+
                 fabrics.add_load(fab_idx.get(), &mut kv, buf)?;
 
-                removed_fabric = fabrics.get(fab_idx).is_none().then_some(fab_idx);
+                removed_fabric = (existed && fabrics.get(fab_idx).is_none()).then_some(fab_idx);
             }
 
             networks.access(|networks| {
